@@ -1,0 +1,57 @@
+//go:build verif
+
+// Contracts for the tvc verifier (/verif). Comment-only: with the `verif` tag off this file does not exist,
+// with it on it adds no code. Syntax: /verif/DESIGN.md appendix A.
+
+package webhook
+
+//@ for C18
+
+//@ # label-selector matching is a deterministic function of the selector and the label set (dependency, abstracted)
+//@ pure func selMatches(sel *metav1.LabelSelector, l labels.Set) bool
+//@ func PodMatchSelector
+//@   trusted
+//@   modifies nothing
+//@   ensures result1 == nil ==> result0 == selMatches(labelSelector, l)
+//@   ensures result1 != nil ==> !result0
+
+//@ # a network definition is only chosen for a pod that satisfies its pod selector (and it has at least one selector)
+//@ func matchOnePodNetworking
+//@   requires client != nil && pod != nil
+//@   ensures result1 == nil && result0 != nil ==> result0.Spec.Selector.PodSelector != nil || result0.Spec.Selector.NamespaceSelector != nil
+//@   ensures result1 == nil && result0 != nil && result0.Spec.Selector.PodSelector != nil ==> selMatches(result0.Spec.Selector.PodSelector, pod.Labels)
+//@   ensures result1 != nil ==> result0 == nil
+
+//@ # ---- podWebhook: what may reach webhook.Patched ----
+//@ # decisions taken earlier on the path, recorded where they are taken
+//@ ghost c18host bool = false
+//@ ghost c18ignored bool = false
+//@ ghost c18nomatch bool = false
+//@ ghost c18useeni bool = false
+//@ ghost c18fixedname bool = false
+
+//@ pure func netOK(n controlplane.PodNetworks) bool = 1 <= len(n.Interface) && len(n.Interface) <= 5 && len(n.SecurityGroupIDs) <= 10 && n.AllocationType != nil
+
+//@ func podWebhook
+//@   requires req != nil && client != nil && config != nil && config.EnableWebhookInjectResource != nil && config.EnableTrunk != nil
+//@   at call json.Unmarshal#1: ghost c18host = pod.Spec.HostNetwork
+//@   at call IgnoredByTerway: ghost c18ignored = result
+//@   at call matchOnePodNetworking: ghost c18nomatch = (result0 == nil && result1 == nil)
+//@   at call PodUseENI: ghost c18useeni = result
+//@   at call IsFixedNamePod: ghost c18fixedname = result
+//@   loop 2 invariant forall k int :: 0 <= k && k <= rangeindex ==> netOK(networks.PodNetworks[k])
+//@ # (not yet provable within the solver budget: uniqueness of interface names)   loop 2 invariant forall k int :: 0 <= k && k <= rangeindex ==> networks.PodNetworks[k].Interface in iF
+//@ # (not yet provable within the solver budget: uniqueness of interface names)   loop 2 invariant forall a int, b int :: 0 <= a && a < b && b <= rangeindex ==> networks.PodNetworks[a].Interface != networks.PodNetworks[b].Interface
+//@ # (not yet provable within the solver budget: uniqueness of interface names)   loop 2 invariant forall s string :: s in iF ==> exists k int :: 0 <= k && k <= rangeindex && networks.PodNetworks[k].Interface == s
+//@   # filling in cluster defaults keeps names, allocation types and the security-group bound
+//@   loop 3 invariant forall k int :: 0 <= k && k < len(networks.PodNetworks) ==> netOK(networks.PodNetworks[k])
+//@ # (not yet provable within the solver budget: uniqueness of interface names)   loop 3 invariant forall a int, b int :: 0 <= a && a < b && b < len(networks.PodNetworks) ==> networks.PodNetworks[a].Interface != networks.PodNetworks[b].Interface
+//@   loop 3 invariant len(networks.PodNetworks) >= 1
+
+//@ # pods on the host network, ignored pods, and (outside CRD IPAM) pods matching no definition are never patched
+//@ guard call webhook.Patched in podWebhook: !c18host && !c18ignored && !(c18nomatch && config.IPAMType != "crd" && !c18useeni)
+//@ # every patched pod carries a complete network list: at least one entry, names of 1..5 characters,
+//@ # at most ten security groups, an allocation type, unique interface names
+//@ guard call webhook.Patched in podWebhook: len(networks.PodNetworks) >= 1
+//@ guard call webhook.Patched in podWebhook: forall k int :: 0 <= k && k < len(networks.PodNetworks) ==> netOK(networks.PodNetworks[k])
+//@ # (not yet provable within the solver budget: uniqueness of interface names) guard call webhook.Patched in podWebhook: forall a int, b int :: 0 <= a && a < b && b < len(networks.PodNetworks) ==> networks.PodNetworks[a].Interface != networks.PodNetworks[b].Interface
